@@ -260,6 +260,8 @@ class Module:
                     enum_members.append(st.targets[0].id)
             elif isinstance(st, (ast.FunctionDef, ast.AsyncFunctionDef)):
                 fi = self._fn(st, cls=node.name)
+                if st.name in methods and any(d.endswith((".setter", ".deleter")) for d in fi.decorators):
+                    continue  # `@x.setter def x(...)`: the getter stays the definition of the property x
                 methods[st.name] = fi
                 self.functions[fi.qualname] = fi
                 self._segments(fi)
